@@ -189,20 +189,24 @@ def globals_digest() -> tuple[str, str]:
 # ----------------------------------------------------------------------- evaluation trees
 class Ev:
     """one `with CollationManager(coll): body` evaluation; kind = the XPath function used"""
-    __slots__ = ('coll', 'inner', 'raises', 'kind', 'dflt')
+    __slots__ = ('coll', 'inner', 'raises', 'kind', 'dflt', 'dc_from_locale')
 
     def __init__(self, coll, inner=(), raises=False, kind='compare', dflt=False):
         self.coll, self.inner, self.raises, self.kind = coll, list(inner), raises, kind
         self.dflt = dflt      # collation argument omitted: `coll` is the parser's default collation
+        self.dc_from_locale = True   # (top-level tree) False: default collation given to the parser constructor
 
     def to_json(self):
         return {'coll': self.coll, 'kind': self.kind, 'raises': self.raises, 'default_collation': self.dflt,
+                'dc_from_locale': self.dc_from_locale,
                 'inner': [e.to_json() for e in self.inner]}
 
     @staticmethod
     def from_json(j):
-        return Ev(j['coll'], [Ev.from_json(x) for x in j['inner']], j['raises'], j['kind'],
-                  j.get('default_collation', False))
+        e = Ev(j['coll'], [Ev.from_json(x) for x in j['inner']], j['raises'], j['kind'],
+               j.get('default_collation', False))
+        e.dc_from_locale = j.get('dc_from_locale', True)
+        return e
 
     def body(self):
         """the steps of the `with` block of this template, in order: inner evaluations and 'C' (one
@@ -401,9 +405,16 @@ def run_tree(ev: Ev):
     b = ExprBuilder()
     expr = b.expr(ev)
 
+    dcs = {e.coll for e in walk_evs(ev) if e.dflt}
+    dc = sorted(dcs)[0] if dcs else None
+
     def go():
-        r = select(root(), expr, parser=XPath31Parser, variables=b.vars)
-        return r
+        if dc is None or getattr(ev, 'dc_from_locale', True):
+            return select(root(), expr, parser=XPath31Parser, variables=b.vars)
+        # the constructor variant: XPath2Parser(default_collation=..) instead of the process locale
+        from elementpath import XPathContext
+        tok = XPath31Parser(default_collation=dc).parse(expr)
+        return tok.get_results(XPathContext(root(), variables=b.vars))
     kind, val = watchdog(go)
     if kind == 'HANG':
         return 'HANG' if val == 'acquire' else f'HANG:{val}', expr
@@ -613,6 +624,14 @@ def gen_history(rng, quick=True):
     n = rng.randint(2, 10)
     flat_only = rng.random() < 0.5
     evs = [fix_markers(gen_ev(rng, world, allow_nest=not flat_only)) for _ in range(n)]
+    for ev in evs:
+        d = [e for e in walk_evs(ev) if e.dflt]
+        if d and rng.random() < 0.5:        # XPath31Parser(default_collation=<any collation>)
+            dc = gen_coll(rng, world)
+            if dc is not None:
+                for e in d:
+                    e.coll = dc
+                ev.dc_from_locale = False
     return world, evs
 
 
@@ -753,12 +772,66 @@ def compare_histories(run: Run, cases, tag_known=True):
                 break
 
 
+
+def compare_direct_api(run: Run):
+    """the CollationManager class used directly, the same object entered twice and used after its
+    block: (second use of an object, state carried on the instance)"""
+    from elementpath.collations import CollationManager
+    st = run.stats
+    envd, decd = globals_digest()
+    worlds = [World('C', ['de_DE.UTF-8']), World('en_US', []), World('POSIX', ['en_US.UTF-8'])]
+    colls = ['de_DE.UTF-8', UCA + '?lang=de', UCA + '?lang=xx;fallback=no', CODEPOINT, 'zz_ZZ']
+    cases = [(w, c) for w in worlds for c in colls]
+    lines = [hist_line(w, [Ev(c, kind='compare'), Ev(c, kind='compare')], envd, decd) for w, c in cases]
+    answers = run.driver('C19', lines)
+    for (w, c), ans in zip(cases, answers):
+        case = {'world': w.to_json(), 'collation': c, 'api': 'm = CollationManager(c); with m: m.eq(a,b); with m: m.eq(a,b); m.strcoll(a,b)'}
+        model = dict(kv.split('=', 1) for kv in ans.split(' ')).get('model', ans).split('|')
+        stub = LocaleStub(w.avail, w.init, w.envdefault)
+        install(stub)
+        obs = []
+        try:
+            try:
+                m = CollationManager(c)
+            except BaseException as e:
+                m = None
+                obs = [canon_exc(e)] * 2
+            for _ in range(2 if m is not None else 0):
+                n0 = len(stub.log)
+                try:
+                    with m as mm:
+                        mm.eq('a', 'b')
+                    out = 'ok'
+                except BaseException as e:
+                    out = canon_exc(e)
+                obs.append(f'{out}#{int(lock_held())}#{enc(stub.cur)}#{decd}#{envd}#{show_log(stub.log[n0:])}')
+            n0 = len(stub.log)
+            if m is not None:
+                try:
+                    m.strcoll('a', 'b')          # after the block: no locale switching any more
+                except BaseException:
+                    pass
+            after = [x for x in stub.log[n0:] if x[1] is not None]
+        finally:
+            uninstall()
+        st.case(case, nontrivial=True)
+        st.count('direct-api')
+        if obs != model:
+            run.disagree(Disagreement(case, '|'.join(obs), '|'.join(model), what='direct-api-reuse',
+                                      site='collations.py CollationManager'))
+        if after:
+            run.disagree(Disagreement(case, 'setlocale after __exit__: ' + show_log(after), None,
+                                      spec='no setlocale request outside the with block', what='direct-api-after-exit',
+                                      site='collations.py CollationManager.__exit__'))
+
+
 def correspond_histories(run: Run):
     rng = run.rng
     n = run.scale(450, 6000)
     cases = list(CORPUS_HIST) + [gen_history(rng, run.quick) for _ in range(n)]
     for i in range(0, len(cases), 400):
         compare_histories(run, cases[i:i + 400])
+    compare_direct_api(run)
 
 
 # ---------------------------------------------------------------------------------- threads
@@ -1217,6 +1290,15 @@ def gen_text_case(rng):
         elif declared and not any(c in v for v in declared.values() for c in '<&'):
             content += f'&{rng.choice(sorted(declared))};'
     text += f'<r{ws(0.2)}>{content}</r>' + ws(0.3)
+    if rng.random() < 0.03 and '<!DOCTYPE' in text:
+        # defuse_xml pulls the text through the SAX parser in chunks of 16 364 characters: push the
+        # DOCTYPE (or the entity declaration inside it) beyond the first chunk
+        pad = '<!-- ' + 'x' * rng.choice([17000, 33000]) + ' -->'
+        i = text.index('<!DOCTYPE')
+        if '[' in text[i:] and rng.random() < 0.5:
+            i = text.index('[', i) + 1
+        text = text[:i] + pad + text[i:]
+        return text, declok, must
     # ill-formed mutations: the scanner must stop where expat stops
     r = rng.random()
     if r < 0.18:
@@ -1256,6 +1338,8 @@ SEED_TEXTS = [
     ('<!DOCTYPE r [<!ENTITY e "EXPANDED"]><r>&e;</r>', True, None),
     ('<!doctype r [<!ENTITY e "EXPANDED">]><r>&e;</r>', True, None),
     ('<r>&lt;&#65;</r>', True, False),
+    ('<!-- ' + 'x' * 17000 + ' --><!DOCTYPE r [<!ENTITY e "EXPANDED">]><r>&e;</r>', True, True),
+    ('<!DOCTYPE r [<!-- ' + 'x' * 17000 + ' --><!ENTITY e "EXPANDED">]><r>&e;</r>', True, True),
 ]
 
 
